@@ -4,15 +4,21 @@
     parse_str_radix cfg radix <hexbytes-of-the-string>  → hex / P
     parse_bytes    cfg radix <hexbytes>                 → S(hex) / N / P
     from_str       cfg <hexbytes>                       → Ok(hex) / Err(..)
+    str_parse      cfg <hexbytes>                       → Ok(hex) / Err(..)      (`s.parse::<T>()` = `FromStr`)
     from_radix_be  cfg radix <hexbytes-of-digit-values> → S(hex) / N / P
     from_radix_le  cfg radix <hexbytes-of-digit-values> → S(hex) / N / P
   `radix` is decimal, byte strings are hex-encoded (`-` = empty).
   Spec answers: `Err(*)` for an over-long malformed string (the property leaves the kind open);
-  `P|N` for `parse_bytes` with an out-of-range radix (the UTF-8 check runs first).
+  `parse_bytes` with an out-of-range radix: `P` when the bytes are well-formed UTF-8 (they are a `&str`, and
+  `from_str_radix` of that string panics); `P|N` when they are not (the statement only says that a
+  panic needs an out-of-range radix; the code answers `N` because `from_utf8` runs first:
+  theorem `C10.u_parse_bytes_bad_radix`).  Well-formedness is decided by `Spec.Utf8.valid`, which is
+  independent of the model's `Prim.utf8Valid` (and proved equal to it, `C10.utf8_spec_eq_prim`).
 -/
 import Bnum.Drive.Util
 import Bnum.Model.Radix
 import Bnum.Spec.Radix
+import Bnum.Spec.C10Extra
 namespace Bnum.Drive.C10
 open Bnum Bnum.Drive Bnum.Spec.Radix
 
@@ -38,7 +44,8 @@ def handle : Handler := fun c op args =>
   let spStr (radix : Nat) (s : List Nat) : String :=
     if 2 ≤ radix ∧ radix ≤ 36 then showExpect c (expectParse radix c.signed m s) else "P"
   let spBytes (radix : Nat) (s : List Nat) : String :=
-    if 2 ≤ radix ∧ radix ≤ 36 then expectOpt c (expectParse radix c.signed m s) else "P|N"
+    if 2 ≤ radix ∧ radix ≤ 36 then expectOpt c (expectParse radix c.signed m s)
+    else if Spec.Utf8.valid s then "P" else "P|N"
   let spDigits (radix : Nat) (msf : List Nat) : String :=
     if 2 ≤ radix ∧ radix ≤ 256 then showOpt toHex (expectDigits radix m msf) else "P"
   let fsr (s : List Nat) (radix : Nat) : Outcome PRes :=
@@ -57,16 +64,18 @@ def handle : Handler := fun c op args =>
     let radix ← r.toNat?; let s ← parseBytes s
     let mo := if c.signed then II.parseBytes w n s radix else UI.parseBytes w n s radix
     some (showOut (showOpt (showVal c)) mo, spBytes radix s)
-  | "from_str", [s] => do
+  | "from_str", [s] | "str_parse", [s] => do
     let s ← parseBytes s
     let mo := if c.signed then II.fromStr w n s else UI.fromStr w n s
     some (showOut (showPRes c) mo, spStr 10 s)
   | "from_radix_be", [r, s] => do
     let radix ← r.toNat?; let s ← parseBytes s
-    some (showOut (showOpt (showVal c)) (UI.fromRadixBe w n s radix), spDigits radix s)
+    let mo := if c.signed then II.fromRadixBe w n s radix else UI.fromRadixBe w n s radix
+    some (showOut (showOpt (showVal c)) mo, spDigits radix s)
   | "from_radix_le", [r, s] => do
     let radix ← r.toNat?; let s ← parseBytes s
-    some (showOut (showOpt (showVal c)) (UI.fromRadixLe w n s radix), spDigits radix s.reverse)
+    let mo := if c.signed then II.fromRadixLe w n s radix else UI.fromRadixLe w n s radix
+    some (showOut (showOpt (showVal c)) mo, spDigits radix s.reverse)
   | _, _ => none
 
 end Bnum.Drive.C10
